@@ -849,7 +849,7 @@ func (w *c19w) doRecover() bool {
 	wasLossy := w.lossyNow()
 	x.Ev("recover: begin (queue possibly saturated: %v)", wasLossy)
 	w.doSetDeadline("srd", time.Time{})
-	count, done, pend, abort := 0, false, false, false
+	count, done, pend, cleaned := 0, false, false, false
 	w.spawn("recover-reader", func() {
 		buf := make([]byte, 2048)
 		for count < 6000 {
@@ -857,26 +857,30 @@ func (w *c19w) doRecover() bool {
 			more, sentinel := w.doRead(true, buf)
 			pend = false
 			count++
+			if sentinel && !w.closing && w.inflightSets == 0 && !w.dlAmbig {
+				// this reader was blocked on an empty queue and has now been released: at this
+				// instant nothing is queued and no receive loop is parked on the queue. Deadlines
+				// requested from now on are tracked as usual.
+				w.floodFlag = false
+				w.minDSince = w.curD
+				cleaned = true
+			}
 			if !more || sentinel {
 				done = true
 				return
 			}
 			if !w.curD.IsZero() && !w.curD.After(time.Now()) {
-				abort = true // somebody armed an expired deadline again: reads would spin
-				done = true
+				done = true // somebody armed an expired deadline again: reads would spin
 				return
 			}
 		}
-		abort, done = true, true
+		done = true
 	})
 	idle := time.Second + 2*w.margin
-	for round := 0; round < 6 && !done; round++ {
+	for round := 0; round < 6 && !done && !w.closing; round++ {
 		c0 := count
 		time.Sleep(idle)
-		if done {
-			break
-		}
-		if w.closing {
+		if done || w.closing {
 			break
 		}
 		if count == c0 && pend {
@@ -887,16 +891,12 @@ func (w *c19w) doRecover() bool {
 					break
 				}
 			}
+			time.Sleep(w.margin + time.Millisecond)
 		}
 	}
-	for i := 0; !done && i < 3 && !w.closing; i++ {
-		time.Sleep(idle)
-	}
-	ok := done && !abort && !w.closing
+	ok := done && cleaned && !w.closing
 	x.Ev("recover: end ok=%v reads=%d", ok, count)
 	if ok {
-		w.floodFlag = false
-		w.minDSince = w.curD
 		if wasLossy {
 			x.Probe("queue-recovered-after-expired-deadline")
 		}
@@ -958,6 +958,13 @@ func (w *c19w) doClose() {
 // ------------------------------------------------------------------ executor
 
 func execC19(x *hysim.Run) {
+	execC19Body(x)
+	// every task must be gone when Exec returns (conn goroutines that survive Close have been
+	// reported by then; the bubble reports them again as goroutine-leak)
+	x.WaitTasks(2 * time.Second)
+}
+
+func execC19Body(x *hysim.Run) {
 	sc := x.Script
 	w := &c19w{
 		x: x, cand: sc.Get("mode", 0) == 1, failSet: map[int]bool{}, curTarget: -1,
